@@ -791,7 +791,70 @@ def wl_rsvd(rng, rec, tier):
         ok, err, _ = close(recon, A, float(strue[0]), 2.3e-16, 1e10)
         rec.check("rsvd", "eps_mode", ok, mech="rsvd:eps_mode",
                   detail={"m": m, "n": n, "r": r, "err": err}, sig=(m, n, r, dtype, "eps"))
+    # documented options of the adaptive (eps) mode: any starting block size, pure
+    # 'adapt' mode below the concatenation threshold, values only
+    kw = {"mode": gen.choice(rng, ["adapt", "adapt+block"]), "k_start": int(gen.choice(rng, [1, 2, 3, 7]))}
+    if r + kw["k_start"] + 8 < 20:      # stays on the QB path of 'adapt' (the concatenating path is a documented rough pass)
+        res = gen.attempt(qu.rsvd, A, 1e-8, **kw)
+        if res is not None:
+            try:
+                U, s, V = res
+                recon = np.asarray(U) @ np.diag(s) @ np.asarray(V)
+                ok, err, _ = close(recon, A, float(strue[0]), 2.3e-16, 1e10)
+            except Exception:
+                ok, err = False, float("inf")
+            rec.check("rsvd", "eps_mode", ok, mech=f"rsvd:eps_mode:{kw['mode']}:k_start={'1' if kw['k_start'] == 1 else 'n'}",
+                      detail={"m": m, "n": n, "r": r, "err": err, "kw": kw}, sig=(m, n, r, dtype, "epskw", kw["mode"], kw["k_start"]))
+        res = gen.attempt(qu.rsvd, A, 1e-8, compute_uv=False, **kw)
+        if res is not None:
+            sv = np.asarray(res) if not isinstance(res, tuple) else None
+            ok = sv is not None and sv.ndim == 1 and len(sv) >= r and \
+                float(np.abs(np.sort(sv)[::-1][:r] - strue[:r]).max()) <= 1e-6 * float(strue[0])
+            rec.check("rsvd", "values_only", bool(ok), mech="rsvd:values_only:not_the_singular_values",
+                      detail={"m": m, "n": n, "r": r, "type": type(res).__name__, "kw": kw}, sig=(m > n, dtype, "vals", kw["mode"]))
     return {"m": m, "n": n, "r": r, "dtype": dtype}
+
+
+def wl_misc(rng, rec, tier):
+    """norms of sparse matrices in every storage state scipy allows (duplicate
+    COO entries, DIA padding), adjoint action of the scaled identity operator"""
+    import quimb as qu
+    from quimb.linalg.base_linalg import IdentityLinearOperator
+    m, n = int(rng.integers(2, 9)), int(rng.integers(2, 9))
+    which = gen.choice(rng, ["coo_dup", "dia", "ident"])
+    if which == "coo_dup":
+        nnz = int(rng.integers(1, 3 * m))
+        rows = rng.integers(0, m, size=nnz)
+        cols = rng.integers(0, n, size=nnz)
+        vals = gen.rand_array(rng, (nnz,), gen.choice(rng, ["float64", "complex128"]))
+        A = sp.coo_matrix((vals, (rows, cols)), shape=(m, n))       # duplicates are summed by definition
+        want = float(np.linalg.norm(A.toarray()))
+        got = gen.attempt2(qu.norm, A, "fro")
+    elif which == "dia":
+        k = int(rng.integers(1, 4))
+        offs = sorted(set(int(o) for o in rng.integers(-m + 1, n, size=k)))
+        data = gen.rand_array(rng, (len(offs), n), "float64")         # entries outside the band are padding
+        A = sp.dia_matrix((data, offs), shape=(m, n))
+        want = float(np.linalg.norm(A.toarray()))
+        got = gen.attempt2(qu.norm, A, "fro")
+    else:
+        c = complex(rng.normal(), rng.normal())
+        I = IdentityLinearOperator(m, c)
+        v = gen.rand_array(rng, (m,), "complex128")
+        got = gen.attempt2(lambda: I.H @ v)
+        if got is not gen.REJECTED:
+            ok = float(np.abs(np.asarray(got).reshape(-1) - np.conj(c) * v).max()) <= 1e-12 * (abs(c) + 1)
+            rec.check("linop", "adjoint", ok, mech="linop:IdentityLinearOperator:adjoint_not_conjugated",
+                      detail={"c": repr(c)}, sig=("ident_adjoint",))
+        return {"which": which}
+    if got is not gen.REJECTED:
+        try:
+            ok = abs(float(got) - want) <= 1e-10 * max(want, 1e-300)
+        except Exception:
+            ok = False
+        rec.check("norm", "value", ok, mech=f"norm:fro:sparse_{which}",
+                  detail={"got": repr(got), "want": want, "shape": [m, n]}, sig=("normfro", which))
+    return {"which": which}
 
 
 WORKLOADS = [
@@ -802,4 +865,5 @@ WORKLOADS = [
     ("matfn", 2, wl_matfn),
     ("autoblock", 1, wl_autoblock),
     ("rsvd", 1, wl_rsvd),
+    ("misc", 1, wl_misc),
 ]
